@@ -159,6 +159,9 @@ def r2_truncate(ctx, repo):
             problems.append(("inconclusive", "the sorted value is not recognisably the (de-duplicated) input population"))
         elif inner[1][0] != "DEDUP":
             problems.append(("violated", "the population is not de-duplicated with set() before ranking: a design could survive twice"))
+    sk = _scalar_key(fn)
+    if sk:
+        problems.append(("violated", sk))
     viol = [m for k, m in problems if k == "violated"]
     inc = [m for k, m in problems if k == "inconclusive"]
     if viol:
@@ -167,6 +170,50 @@ def r2_truncate(ctx, repo):
         ctx.inconclusive("R2", C, where(mod, fn), "; ".join(inc))
     else:
         ctx.holds("R2", C, where(mod, fn), "result = sorted(set(population), by (front asc, crowding desc))[:size]")
+
+
+def _scalar_key(fn):
+    """the (front, crowding) order packed into ONE number that is then sorted (argsort / sort on the number): the packing is
+    faithful only if no value of the crowding part can carry a member over into the next front's range.  The packed key is
+    evaluated (plain float arithmetic on the expression, nothing of the package is run) at the two members that decide it:
+    the most crowded member of a front (distance 0) and a boundary member of the next front (distance inf)"""
+    from ..ivlinterp import Interp as _IvI, Unsupported as _Un
+    from ..ivl import DomainError as _DE
+    defs = {}
+    for st in ast.walk(fn):
+        if isinstance(st, ast.Assign) and len(st.targets) == 1 and isinstance(st.targets[0], ast.Name):
+            defs.setdefault(st.targets[0].id, []).append(st.value)
+    for c in [c for c in ast.walk(fn) if isinstance(c, ast.Call) and (access_path(c.func) or "").split(".")[-1] in ("argsort", "lexsort", "sort", "sorted") and c.args]:
+        key = c.args[0]
+        if isinstance(key, ast.Name) and len(defs.get(key.id, [])) == 1:
+            key = defs[key.id][0]
+        roles = {}
+        for nm in {n.id for n in ast.walk(key) if isinstance(n, ast.Name)}:
+            src = " ".join(text(v) for v in defs.get(nm, []))
+            if "'front_number'" in src and "'crowding_distance'" not in src:
+                roles[nm] = "rank"
+            elif "'crowding_distance'" in src and "'front_number'" not in src:
+                roles[nm] = "crowd"
+        if sorted(roles.values()) != ["crowd", "rank"] or not isinstance(key, ast.BinOp):
+            continue
+        rn = next(k for k, v in roles.items() if v == "rank")
+        cn = next(k for k, v in roles.items() if v == "crowd")
+
+        def val(r, d):
+            it = _IvI()
+            it.concrete_lib = True
+            return it.ev(key, {rn: float(r), cn: float(d)})
+        try:
+            pairs = [((1, d1), (2, d2)) for d1 in (0.0, 1e-12, 0.5, 1.0, 1e12) for d2 in (float("inf"), 1e12, 1.0, 0.0)]
+            for (r1, d1), (r2, d2) in pairs:
+                k1, k2 = val(r1, d1), val(r2, d2)
+                if isinstance(k1, float) and isinstance(k2, float) and not (k1 < k2):
+                    return ("the crowded comparison is packed into one number, %s, and sorted on it: a member of front %d with crowding distance %r gets %r, a member of front %d "
+                            "with distance %r gets %r - the key does not put the better front first (ties are left to the incoming order), so a member of a worse front can be "
+                            "kept while one of a better front is cut" % (text(key), r1, d1, k1, r2, d2, k2))
+        except (_Un, _DE, ZeroDivisionError, OverflowError, TypeError):
+            return None
+    return None
 
 
 VALS = {}      # local name -> bound expression (sort keys held in a local)
